@@ -223,6 +223,33 @@ func genStart(t *rapid.T, action, atype byte, user, data string) *model.AuthenSt
 	return s
 }
 
+// ambiguousAbort builds a CONTINUE with the abort bit set whose octets are, read with the other layout, a
+// well-formed START of an ASCII login: the two length fields are 256+priv and 256+service (high octets 1 =
+// LOGIN and ASCII), the flags octet doubles as the user length, the first three octets of user_msg as the
+// port, rem_addr and data lengths, and the password closes the data field.
+func ambiguousAbort(pw string, priv, service, flags byte) (authPkt, bool) {
+	umLen, dLen := 256+int(priv), 256+int(service)
+	sum := 5 + umLen + dLen - 8 - int(flags) - len(pw)
+	if flags&1 == 0 || len(pw) < 1 || len(pw) > 127 || sum < 0 || sum > 254 || !isASCII([]byte(pw)) {
+		return authPkt{}, false
+	}
+	um := make([]byte, umLen)
+	for i := range um {
+		um[i] = 'a'
+	}
+	um[0], um[1], um[2] = byte(sum/2), byte(sum-sum/2), byte(len(pw))
+	data := make([]byte, dLen)
+	for i := range data {
+		data[i] = 'd'
+	}
+	copy(data[dLen-len(pw):], pw)
+	p := authPkt{Kind: "continue", Cont: &model.AuthenContinue{Flags: flags, UserMsg: um, Data: data}}
+	if st, ok, _ := model.DecodeAuthenStart(p.body()); !ok || st.Action != 1 || st.AType != 1 || string(st.Data) != pw {
+		return authPkt{}, false
+	}
+	return p, true
+}
+
 func cont(msg string, flags byte) authPkt {
 	return authPkt{Kind: "continue", Cont: &model.AuthenContinue{Flags: flags, UserMsg: model.B(msg)}}
 }
@@ -297,6 +324,13 @@ func genAuthScript(t *rapid.T, w cfggen.World, scope string, session uint32) aut
 		if sc.Flavour == "ascii-abort" {
 			k := rapid.IntRange(1, len(sc.Pkts)-1).Draw(t, "abort_at")
 			sc.Pkts[k].Cont.Flags = rapid.SampledFrom([]byte{1, 1, 3, 0xff}).Draw(t, "abort_flags")
+			if rapid.IntRange(0, 2).Draw(t, "abort_ambiguous") == 0 {
+				// an abort whose octets can also be read as a START (a login carrying the right password)
+				if amb, ok := ambiguousAbort(pw, rapid.ByteRange(0, 15).Draw(t, "amb_priv"), rapid.ByteRange(0, 9).Draw(t, "amb_service"), rapid.SampledFrom([]byte{251, 253, 255}).Draw(t, "amb_flags")); ok {
+					sc.Pkts[k] = amb
+					sc.Flavour = "ascii-abort-also-a-start"
+				}
+			}
 			if rapid.Bool().Draw(t, "abort_ends") {
 				sc.Pkts = sc.Pkts[:k+1]
 			}
